@@ -231,9 +231,9 @@ fn roundtrip_view_windows(ctx: &mut Ctx, pc: usize, pr: usize, wins: &[crate::re
 }
 
 pub fn run_c18(ctx: &mut Ctx) {
-    let n = nsel(ctx, 1, 2, 2, 4, 6);
-    let nrand = nsel(ctx, 0, 1, 2, 40, 400);
-    let nview = nsel(ctx, 1, 2, 2, 3, 5);
+    let n = nsel(ctx, 1, 2, 2, 4, 8);
+    let nrand = nsel(ctx, 0, 1, 2, 40, 2000);
+    let nview = nsel(ctx, 1, 2, 2, 3, 6);
     for shape in shapes(n) {
         if ctx.case(|| format!("C18 owned shape={}x{}", shape.0, shape.1)) {
             let mut rng = Rng::from_parts(ctx.seed, ctx.cur_idx, 18);
@@ -696,7 +696,7 @@ pub fn run_c19(ctx: &mut Ctx) {
         (Scale::Miri, Tier::Thorough) => (3, 2),
         (Scale::Vg, _) => (3, 2),
         (Scale::Native, Tier::Quick) => (4, 6),
-        (Scale::Native, Tier::Thorough) => (5, 40),
+        (Scale::Native, Tier::Thorough) => (5, 80),
     };
     // every sequence of field keys up to maxlen over {num_cols, num_rows, data, unknown...}: every
     // subset, order and duplication of the three fields plus unknown ones
